@@ -372,6 +372,12 @@ func (p *asmProg) initial() *AbsState {
 		a.st.le(base.Sub(linK(lim)))           // single-symbol bounds help interval reasoning
 		a.st.le(ln.Sub(linK(lim)))
 	}
+	for _, r := range []string{"dst", "src", "dict"} {
+		if cp, ok := p.g[r+"_cap"]; ok {
+			a.st.le(p.g[r+"_len"].Sub(cp))                  // len <= cap
+			a.st.le(p.g[r+"_base"].Add(cp).Sub(linK(lim))) // base+cap <= 2^47
+		}
+	}
 	nonNil := func(r string) { a.st.le(linI(4096).Sub(p.g[r+"_base"])) }
 	isNil := func(r string) {
 		a.st.eq(p.g[r+"_base"])
@@ -1296,7 +1302,21 @@ func analyseAsmDecoder(path string, minMatch int64, cs asmCase, coll *collector,
 		tab.global[s] = true
 		p.g[n] = linS(s)
 	}
-	// dst_cap etc. are not used by the code
+	// dst_cap etc. are not used by the code as it stands; when an instruction names one, it is a word of its own,
+	// at least the length and inside the address space
+	for _, b := range f.blocks {
+		for _, ins := range b.instrs {
+			for _, o := range ins.args {
+				if o.kind == "fp" && strings.HasSuffix(o.name, "_cap") {
+					if _, have := p.g[o.name]; !have && p.g[strings.TrimSuffix(o.name, "_cap")+"_len"].t != nil {
+						s := tab.get(o.name)
+						tab.global[s] = true
+						p.g[o.name] = linS(s)
+					}
+				}
+			}
+		}
+	}
 	p.computeLive()
 	hc := &hullCtx{tab: tab, heads: map[int]*tmplHead{}}
 	hc.anchors = []Lin{p.g["dst_base"], p.g["dst_base"].Add(p.g["dst_len"]), p.g["src_base"], p.g["src_base"].Add(p.g["src_len"]), p.g["dict_base"], p.g["dict_base"].Add(p.g["dict_len"])}
